@@ -61,6 +61,7 @@ pub fn run_line(line: &str, scratch: &str) -> String {
         "skchunks" => by_width!(c, op_skchunks, scratch),
         "snapblock" => op_snapblock(c),
         "names" => op_names(c),
+        "filelist" => op_filelist(c, scratch),
         "build2" => by_width!(c, op_build2, scratch),
         "map" => by_width!(c, op_map, scratch),
         "alnw" => op_alnw(c),
@@ -896,6 +897,34 @@ fn op_names(c: &Case) -> String {
         })
         .collect();
     join(&names)
+}
+
+/// the `-f` file list (`io_utils::get_input_list`) and the names file of `ska delete`
+/// (`io_utils::read_name_list`) on the same content; fields as hex of UTF-8
+fn op_filelist(c: &Case, scratch: &str) -> String {
+    let dir = format!("{scratch}/filelist");
+    std::fs::create_dir_all(&dir).unwrap();
+    let path = format!("{dir}/list.txt");
+    std::fs::write(&path, unhex_bytes(c.get("content"))).unwrap();
+    let hx = |s: &str| hex(s.as_bytes());
+    let p1 = path.clone();
+    let list = guarded(move || {
+        let v = ska::io_utils::get_input_list(&Some(p1), &None);
+        let items: Vec<String> = v
+            .iter()
+            .map(|(n, f, g)| format!("{}:{}:{}", hx(n), hx(f), g.as_ref().map(|x| hx(x)).unwrap_or_else(|| "-".to_string())))
+            .collect();
+        join(&items)
+    });
+    let p2 = path.clone();
+    let names = guarded(move || {
+        let v = ska::io_utils::read_name_list(&p2);
+        let items: Vec<String> = v.iter().map(|(n, _, _)| hx(n)).collect();
+        join(&items)
+    });
+    let _ = std::fs::remove_dir_all(&dir);
+    let list = if list.contains(':') || list == "~" { list } else { "panic".to_string() };
+    format!("list={list} names={names}")
 }
 
 /// a simple order-sensitive checksum of a byte string (to compare decoder outputs)
